@@ -84,7 +84,7 @@ def md_for(plan, k, log):
 
 
 def execute(case, consumer_modes=None, faults=None, md_plan=None, finish=True, horizon=240.0,
-            sample=None, record=True):
+            sample=None, record=True, after_build=None, step_hook=None):
     """Run case = {"spec", "actions"} on a fresh virtual loop.  md_plan: list of ints (cycled) or
     None.  sample(run, loop) is called at every quiescent sample point (after each action)."""
     spec = case["spec"]
@@ -96,6 +96,8 @@ def execute(case, consumer_modes=None, faults=None, md_plan=None, finish=True, h
         b = specs.build(spec, log, asynchronous=True, consumer_modes=consumer_modes,
                         faults=faults, record=record)
         run.built = b
+        if after_build:
+            after_build(b, log)
         ents = specs.entry_ids(spec)
         producers = {e: {"queue": [], "cur": None} for e in range(len(ents))}
 
@@ -144,7 +146,11 @@ def execute(case, consumer_modes=None, faults=None, md_plan=None, finish=True, h
                         again = True
 
         drain()
-        for a in case["actions"]:
+        for k_act, a in enumerate(list(case["actions"]) + [["end"]]):
+            if step_hook:
+                step_hook(k_act, b)
+            if a[0] == "end":
+                break
             op = a[0]
             nodrain = a[-1] == "!"
             if op == "emit":
